@@ -677,4 +677,99 @@ theorem CW.chunksProg_writes : ∀ (ws : List Bytes) (buf : Bytes), CW.chunksPro
     · rw [CW.chunksProg_writes bs []]
     · rw [CW.chunksProg_writes bs (buf ++ b)]
 
+/-! ### arbitrary damage -/
+
+/-- Any damage to the frames (not only one byte or a cut): as long as the stored data is not the original frames
+    followed by something, what authenticates is the plaintext of fewer frames than were written. -/
+theorem decFrames_damaged (A : Aead) (prod) (hI : Ideal A prod) : ∀ (chunks : List Bytes) (n : NonceSeq) (fuel : Nat) (d : Bytes),
+    (∀ e ∈ produced A n chunks, e ∈ prod) → (∀ c ∈ chunks, c ≠ [] ∧ c.length ≤ cryptoBuf) →
+    fuel > d.length → ¬ (framesBytes A n chunks <+: d) →
+    ∃ j, j < chunks.length ∧ (decFrames A fuel n d).1 = (chunks.take j).flatten
+  | [], n, fuel, d, _, _, _, hnp => by
+    exact absurd (by simp [framesBytes]) hnp
+  | c :: cs, n, fuel, d, hp, hc, hf, hnp => by
+    cases fuel with
+    | zero => simp at hf
+    | succ f =>
+      have hmem : (n.advance.val, c, A.sealF n.advance.val c) ∈ prod := hp _ (by simp [produced])
+      obtain ⟨hcne, hcl⟩ := hc c (by simp)
+      obtain ⟨hl, ho, hle⟩ := head_frame A prod hI n c hmem hcl
+      have h8 := leBytes_length 8 (c.length + tagLen)
+      have noopen : ∀ c' : Bytes, c' ≠ A.sealF n.advance.val c → A.openF n.advance.val c' = none := by
+        intro c' hne
+        cases hopen : A.openF n.advance.val c' with
+        | none => rfl
+        | some p =>
+          have hin := hI.int _ _ _ hopen
+          have := hI.nonce_once _ hin _ hmem rfl
+          simp only [Prod.mk.injEq] at this
+          exact absurd this.2.2 hne
+      by_cases hshort : d.length < 8
+      · rw [decFrames_short A f n d hshort]
+        exact ⟨0, by simp, by simp⟩
+      · -- d = hd ++ x with an 8 byte length word
+        have hsplit : d = d.take 8 ++ d.drop 8 := (List.take_append_drop 8 d).symm
+        have hd8 : (d.take 8).length = 8 := by simp; omega
+        rw [hsplit, decFrames_step A f n (d.take 8) (d.drop 8) hd8]
+        by_cases hbig : ofLE (d.take 8) > cryptoBuf + tagLen
+        · simp only [hbig, if_true]; exact ⟨0, by simp, by simp⟩
+        · simp only [hbig, if_false]
+          by_cases hsh : (d.drop 8).length < ofLE (d.take 8)
+          · simp only [hsh, if_true]; exact ⟨0, by simp, by simp⟩
+          · simp only [hsh, if_false]
+            by_cases hct : (d.drop 8).take (ofLE (d.take 8)) = A.sealF n.advance.val c
+            · -- the head frame is the original one: the damage lies behind it
+              have hlen : ofLE (d.take 8) = c.length + tagLen := by
+                have := congrArg List.length hct
+                rw [List.length_take, hl] at this
+                omega
+              have hword : d.take 8 = leBytes 8 (c.length + tagLen) := by
+                have h1 := leBytes_ofLE (d.take 8)
+                rw [hd8, hlen] at h1
+                exact h1.symm
+              rw [hct, ho]
+              simp only [frameCont]
+              have hrest : ¬ (framesBytes A n.advance cs <+: (d.drop 8).drop (ofLE (d.take 8))) := by
+                intro hpre
+                apply hnp
+                obtain ⟨t, ht⟩ := hpre
+                refine ⟨t, ?_⟩
+                simp only [framesBytes, List.append_assoc]
+                rw [ht, ← hct, ← hword, List.take_append_drop, List.take_append_drop]
+              have hfl : f > ((d.drop 8).drop (ofLE (d.take 8))).length := by
+                simp only [List.length_drop]; simp only [Nat.lt_succ_iff] at hf; omega
+              obtain ⟨j, hj, ih⟩ := decFrames_damaged A prod hI cs n.advance f _
+                (fun e he => hp e (by simp [produced, he])) (fun c' hc' => hc c' (by simp [hc'])) hfl hrest
+              refine ⟨j + 1, by simp; omega, ?_⟩
+              simp only [List.take_succ_cons, List.flatten_cons]
+              rw [ih]
+            · rw [noopen _ hct]
+              exact ⟨0, by simp, by simp [frameCont]⟩
+
+
+/-- the same at stream level, when the stored nonce is the one the stream was written with: whatever else was done
+    to the stored bytes (several bytes changed, frames exchanged, replayed or removed, data cut or inserted), unless
+    the original frames are all still there in front, fewer frames than were written authenticate -/
+theorem decStream_damaged (A : Aead) (prod) (hI : Ideal A prod) (n0 : NonceSeq) (hn : n0.wf) (chunks : List Bytes)
+    (hp : ∀ e ∈ produced A n0 chunks, e ∈ prod) (hc : ∀ c ∈ chunks, c ≠ [] ∧ c.length ≤ cryptoBuf)
+    (x : Bytes) (hx : ¬ (framesBytes A n0 chunks <+: x)) :
+    ∃ j, j < chunks.length ∧ (decStream A (n0.bytes ++ x)).1 = (chunks.take j).flatten := by
+  have h12 := n0.bytes_length
+  have h1 : ¬ ((n0.bytes ++ x).length < 12) := by simp [h12]
+  have hd : (n0.bytes ++ x).drop 12 = x := by
+    rw [List.drop_append_of_le_length (by omega), List.drop_of_length_le (by omega)]; rfl
+  simp only [decStream, h1, if_false, hd, parsedNonce_enc A n0 hn]
+  exact decFrames_damaged A prod hI chunks n0 _ x hp hc (by simp only [List.length_append]; omega) hx
+
+/-- The limit of the format (a finding, not a theorem about safety): a frame is bound to its position only through
+    the nonce counter, and the counter's start is stored in the clear in front of the frames.  Storing the next
+    counter value and removing the first frame gives a stream in which every remaining frame authenticates: it
+    decrypts, with a clean end, to the plaintext *without its first chunk*. -/
+theorem decStream_first_frame_removed (A : Aead) (prod) (hI : Ideal A prod) (n0 : NonceSeq) (hn : n0.wf) (c : Bytes) (cs : List Bytes)
+    (hp : ∀ e ∈ produced A n0 (c :: cs), e ∈ prod) (hc : ∀ c' ∈ c :: cs, c' ≠ [] ∧ c'.length ≤ cryptoBuf) :
+    decStream A (n0.advance.bytes ++ framesBytes A n0.advance cs) = (cs.flatten, .clean) := by
+  have := decStream_encStream A prod hI n0.advance (NonceSeq.advance_wf n0 hn) cs
+    (fun e he => hp e (by simp [produced, he])) (fun c' hc' => hc c' (by simp [hc']))
+  simpa [encStream] using this
+
 end Sfv
